@@ -220,6 +220,13 @@ def relations(ctx, k, A, B, C, rng, maxexp, feats):
             okacc = okacc and list(map(float, A.orientation)) == a[3:]
         if k in ("r2", "r3"):
             okacc = okacc and float(A.orientation) == 0.0  # a point has no orientation: documented as 0.0
+        # a pose is an array of its numbers: generic array access agrees with the accessors
+        import copy as _copy
+
+        okacc = okacc and len(A) == len(a) and [float(x) for x in A] == a and np.asarray(A, dtype=float).tolist() == a and [float(x) for x in A.tolist()] == a \
+            and [float(x) for x in A[:NT[k]]] == a[:NT[k]] and float(A[-1]) == a[-1]
+        for Cc in (_copy.copy(A), _copy.deepcopy(A)):
+            okacc = okacc and type(Cc) is cls and M.fl(Cc) == a and not np.shares_memory(np.asarray(Cc), np.asarray(A))
         ctx.check("accessors-consistent", okacc, feats, None, case)
     nontriv = ta > 0 and tb > 0
     if k == "se2":
